@@ -206,6 +206,8 @@ theorem mu_stepTask {g : Graph} {s s' : St} {t : Nat} (hw : WF g) (hI : Inv g s)
     · rename_i hcmd; have := cmdAt_lt hcmd
       cases h; exact mu_move rfl rfl rfl ht (by rw [hpc]; simp [taskW])
     · rename_i hcmd; have := cmdAt_lt hcmd
+      cases h; exact mu_move rfl rfl rfl ht (by rw [hpc]; simp [taskW])
+    · rename_i hcmd; have := cmdAt_lt hcmd
       cases h; exact mu_move rfl rfl rfl ht (by rw [hpc]; simp [taskW] <;> omega)
     · rename_i c hcmd; have := cmdAt_lt hcmd
       obtain ⟨hci, hct⟩ := spawn_idle hw hI hpc hcmd
